@@ -70,7 +70,7 @@ def twin_escape(s: str) -> bool:
 
 def escape_item(item):
     out = dict(paths=1, obligations=2, discharged=0, violations=[], solver_queries=0, solver_s=0.0, nontrivial=True, item=item, section=0)
-    r = xhair.run(XH_SOURCE % {"n": item["n"]}, per_condition_timeout=item["timeout"], extra_path=["/repo/src"])
+    r = xhair.run(XH_SOURCE % {"n": item["n"]}, per_condition_timeout=item["timeout"], extra_path=[__import__("os").environ.get("VERIF_REPO_SRC", "/repo/src")])
     ce = r.get("check_escape", {"verdict": "inconclusive", "detail": "no report: " + r.get("_raw", "")[-300:]})
     tw = r.get("twin_escape", {"verdict": "inconclusive", "detail": "no report"})
     out["solver_s"] = r.get("_wall_s", 0.0)
